@@ -4,6 +4,74 @@ From UV Require Import Base.Common Model.Negotiate Model.KeyShare Model.Complete
 From Coq Require Import ZifyBool ZifyNat ZifyN.
 
 Ltac bsplit H := repeat (let X := fresh "B" in apply andb_true_iff in H; destruct H as [H X]).
+Ltac bs H X := apply andb_true_iff in H; destruct H as [H X].
+
+Record spec_facts (fixed : bool) (e : env) (v : client_view) (ks : kshape) (m : N) (w : wire_view) : Prop := {
+  sf_synced : synced v w = true;
+  sf_vers : versions_ok e v m w = true;
+  sf_keys : keys_ok fixed v ks = true;
+  sf_mlkem : cv_mlkem v = sh_mlkem ks;
+  sf_ech : cv_ech v = false;
+  sf_ccext : is_nil (w_ccalgs w) = false -> cv_ccext v = true;
+  sf_shares13 : is_nil (cv_shares v) = false -> offers13 w = true;
+  sf_13shares : offers13 w = true -> is_nil (cv_shares v) = false
+}.
+
+Lemma spec_ok_inv fixed e v ks m w : spec_ok fixed e v ks m w = true -> spec_facts fixed e v ks m w.
+Proof.
+  unfold spec_ok. intros H. bs H Q8. bs H Q7. bs H Q6. bs H Q5. bs H Q4. bs H Q3. bs H Q2.
+  constructor; auto.
+  - apply eqb_prop. exact Q4.
+  - apply negb_true_iff. exact Q5.
+  - intros N. rewrite N in Q6. exact Q6.
+  - intros N. rewrite N in Q7. exact Q7.
+  - intros O. rewrite O in Q8. apply negb_true_iff. exact Q8.
+Qed.
+
+Record c13_facts (w : wire_view) (fl : flight) : Prop := {
+  c_off : offers13 w = true;
+  c_sh : compliant_hello13 w (f_sh fl) = true;
+  c_tail : h_tail (f_sh fl) = 0;
+  c_cookie : h_cookie (f_sh fl) = false;
+  c_sel : h_selgroup (f_sh fl) = 0;
+  c_gimpl : group_impl (h_share (f_sh fl)) = true;
+  c_gw : memN (h_share (f_sh fl)) (w_groups w) = true;
+  c_hrr : match f_hrr fl with
+          | None => memN (h_share (f_sh fl)) (w_shares w)
+          | Some h =>
+              compliant_hello13 w h && (h_tail h =? 0) && (h_share h =? 0) && (h_suite h =? h_suite (f_sh fl))
+              && ((negb (h_selgroup h =? 0) && memN (h_selgroup h) (w_groups w) && negb (memN (h_selgroup h) (w_shares w))
+                   && (h_share (f_sh fl) =? h_selgroup h))
+                  || ((h_selgroup h =? 0) && h_cookie h && memN (h_share (f_sh fl)) (w_shares w)))
+          end = true;
+  c_alpn : is_nil (f_ee_alpn fl) || memB (f_ee_alpn fl) (w_alpn w) = true;
+  c_cc : match f_ccert fl with None => true | Some a => memN a (w_ccalgs w) && memN a [1; 2; 3] end = true;
+  c_skx : f_skx fl = None;
+  c_crypto : f_crypto_ok fl = true
+}.
+
+Lemma compliant13_inv w fl : compliant13 w fl = true -> c13_facts w fl.
+Proof.
+  unfold compliant13. intros H. bs H Q12. bs H Q11. bs H Q10. bs H Q9. bs H Q8. bs H Q7. bs H Q6. bs H Q5. bs H Q4. bs H Q3. bs H Q2.
+  constructor; auto.
+  - apply N.eqb_eq. exact Q3.
+  - apply negb_true_iff. exact Q4.
+  - apply N.eqb_eq. exact Q5.
+  - destruct (f_skx fl); [discriminate|reflexivity].
+Qed.
+
+Record h13_facts (w : wire_view) (h : hello_msg) : Prop := {
+  h_f_vers : h_vers h = V12; h_f_sv : h_sv h = V13; h_f_sid : h_sid h = w_sid w; h_f_comp : h_comp h = 0;
+  h_f_suite : memN (h_suite h) (w_suites w) = true; h_f_s13 : memN (h_suite h) tls13_suites = true;
+  h_f_alpn : h_alpn h = []; h_f_psk : h_psk h = None
+}.
+Lemma compliant_hello13_inv w h : compliant_hello13 w h = true -> h13_facts w h.
+Proof.
+  unfold compliant_hello13. intros H. bs H Q8. bs H Q7. bs H Q6. bs H Q5. bs H Q4. bs H Q3. bs H Q2.
+  constructor; auto.
+  - apply N.eqb_eq; auto. - apply N.eqb_eq; auto. - apply bytes_eqb_eq; auto. - apply N.eqb_eq; auto.
+  - destruct (h_alpn h); [reflexivity|discriminate]. - destruct (h_psk h); [discriminate|reflexivity].
+Qed.
 
 Lemma memB_nonnil x l : memB x l = true -> l <> [].
 Proof. destruct l; [discriminate|congruence]. Qed.
@@ -34,14 +102,11 @@ Lemma check_hello13_ok v w prev h :
   cv_sid v = w_sid w -> cv_suites v = w_suites w -> compliant_hello13 w h = true ->
   (forall p, prev = Some p -> h_suite h = p) -> check_hello13 v prev h = inr (h_suite h).
 Proof.
-  intros S1 S2 C P. unfold compliant_hello13 in C. bsplit C.
-  apply N.eqb_eq in C. apply N.eqb_eq in B5. apply bytes_eqb_eq in B4. apply N.eqb_eq in B3.
-  unfold check_hello13. rewrite B5. change (V13 =? 0) with false. change (V13 =? V13) with true. rewrite C.
-  change (V12 =? V12) with true. cbn [negb].
-  destruct (h_alpn h); [|discriminate]. cbn [negb].
-  rewrite S1, <- B4. replace (bytes_eqb (h_sid h) (h_sid h)) with true by (symmetry; apply bytes_eqb_eq; reflexivity).
-  rewrite B3. change (0 =? 0) with true. cbn [negb].
-  unfold mutual13. rewrite S2, B2, B1. cbn [andb].
+  intros S1 S2 C P. destruct (compliant_hello13_inv _ _ C) as [F1 F2 F3 F4 F5 F6 F7 F8].
+  unfold check_hello13. rewrite F2, F1, F7, S1, <- F3, F4.
+  change (V13 =? 0) with false. change (V13 =? V13) with true. change (V12 =? V12) with true. change (0 =? 0) with true. cbn [negb].
+  replace (bytes_eqb (h_sid h) (h_sid h)) with true by (symmetry; apply bytes_eqb_eq; reflexivity). cbn [negb].
+  unfold mutual13. rewrite S2, F5, F6. cbn [andb].
   destruct prev as [p|]; [|reflexivity]. rewrite (P p eq_refl), N.eqb_refl. reflexivity.
 Qed.
 
@@ -66,22 +131,18 @@ Lemma run13_complete fixed v ks m w fl e :
              /\ cs_vers st = V13 /\ cs_suite st = h_suite (f_sh fl) /\ cs_group st = h_share (f_sh fl)
              /\ cs_alpn st = f_ee_alpn fl.
 Proof.
-  intros SO NP NH C. unfold spec_ok in SO. bsplit SO.
-  destruct (synced_inv _ _ SO) as (Ss & Sc & Sh & Sa & Si & Sp & Scc & _).
-  unfold compliant13 in C. bsplit C.
-  rename B7 into Cgi. rename B6 into Cgw. rename B5 into Chrr. rename B4 into Calpn. rename B3 into Ccc. rename B2 into Cskx. rename B1 into Ccr.
-  rename B8 into Csel. rename B9 into Ccookie. rename B10 into Ctail. rename B11 into Csh.
-  apply N.eqb_eq in Csel. apply negb_true_iff in Ccookie.
-  (* shares non-empty, ecdhe present *)
-  rewrite C in *. cbn [implb] in B. apply negb_true_iff in B.
-  unfold keys_ok in B13. apply andb_true_iff in B13 as [K0 K1]. rewrite B in K0. cbn [orb] in K0.
-  apply negb_true_iff in K0. rewrite K0. apply N.eqb_neq in K0.
+  intros SO NP NH C.
+  destruct (spec_ok_inv _ _ _ _ _ _ SO) as [SY SV SK SM SE SCX S13a S13b].
+  destruct (synced_inv _ _ SY) as (Ss & Sc & Sh & Sa & Si & Sp & Scc & _).
+  destruct (compliant13_inv _ _ C) as [Coff Csh Ctail Ccookie Csel Cgi Cgw Chrr Calpn Ccc Cskx Ccr].
+  pose proof (S13b Coff) as B.
+  unfold keys_ok in SK. apply andb_true_iff in SK as [K0 K1]. rewrite B in K0. cbn [orb] in K0.
+  apply negb_true_iff in K0. rewrite K0. cbv beta iota. apply N.eqb_neq in K0.
   set (g := h_share (f_sh fl)) in *.
   pose proof (group_impl_nonzero _ Cgi) as Gnz.
-  apply eqb_prop in B12.
   assert (KEY : memN g (cv_shares v) = true -> establish_keys (eff_ecdhe fixed ks g) (cv_mlkem v) g = None /\ eff_ecdhe fixed ks g <> 0).
   { intros M. rewrite forallb_forall in K1. apply memN_In in M. specialize (K1 _ M). rewrite Cgi in K1. cbn [negb orb] in K1.
-    rewrite B12. destruct (establish_keys (eff_ecdhe fixed ks g) (sh_mlkem ks) g) eqn:E; [discriminate|]. split; [reflexivity|].
+    rewrite SM. destruct (establish_keys (eff_ecdhe fixed ks g) (sh_mlkem ks) g) eqn:E; [discriminate|]. split; [reflexivity|].
     intros Z. rewrite Z in E. unfold establish_keys in E. destruct (hybrid g); [discriminate|].
     destruct (N.eqb_spec g 0); [congruence|discriminate]. }
   unfold run13. set (v' := set_ecdhe v _).
@@ -91,19 +152,19 @@ Proof.
   assert (CC : check_ccert v' (f_ccert fl) = None).
   { unfold check_ccert. destruct (f_ccert fl) as [a|]; [|reflexivity]. apply andb_true_iff in Ccc as [A1 A2].
     assert (NN : is_nil (w_ccalgs w) = false) by (destruct (w_ccalgs w); [discriminate|reflexivity]).
-    rewrite NN in B15. cbn [negb implb] in B15.
-    change (cv_ccext v') with (cv_ccext v). change (cv_ccalgs v') with (cv_ccalgs v). rewrite B15, Scc.
-    destruct (w_ccalgs w) eqn:W; [discriminate|]. cbn [negb andb]. rewrite <- W, A1, A2. reflexivity. }
+    change (cv_ccext v') with (cv_ccext v). change (cv_ccalgs v') with (cv_ccalgs v). rewrite (SCX NN), Scc, A1, A2.
+    assert (X : negb (match w_ccalgs w with [] => true | _ => false end) = true) by (destruct (w_ccalgs w); [discriminate|reflexivity]).
+    rewrite X. reflexivity. }
   destruct (f_hrr fl) as [h|] eqn:Ehrr.
   - (* HelloRetryRequest *)
-    bsplit Chrr. rename B1 into Cway. rename B2 into Csu. rename B3 into Chs. rename B4 into Cht.
+    bs Chrr Cway. bs Chrr Csu. bs Chrr Chs. bs Chrr Cht.
     apply N.eqb_eq in Csu. apply N.eqb_eq in Chs.
     unfold psk_with_hrr in NP. rewrite Ehrr, andb_true_r in NP. apply N.ltb_ge in NP.
     unfold hrr_to_hybrid in NH. rewrite Ehrr in NH.
     rewrite (check_hello13_ok v' w None h); [|rewrite P5; exact Si|rewrite P1; exact Ss|exact Chrr|discriminate].
     apply orb_true_iff in Cway as [W|W].
     + (* a group without share *)
-      bsplit W. apply negb_true_iff in W. apply negb_true_iff in B2. apply N.eqb_eq in B1.
+      bs W B1. bs W B2. bs W B3. apply negb_true_iff in W. apply negb_true_iff in B2. apply N.eqb_eq in B1.
       assert (CL : classical_impl (h_selgroup h) = true).
       { unfold group_impl in Cgi. fold g in B1. rewrite <- B1. rewrite <- B1 in NH. rewrite NH, orb_false_r in Cgi. exact Cgi. }
       assert (ENZ : (cv_ecdhe v' =? 0) = false).
@@ -116,12 +177,12 @@ Proof.
       unfold process_sh13. rewrite Ccookie, Csel. change (0 =? 0) with true. cbn [negb].
       fold g. replace (g =? 0) with false by (symmetry; apply N.eqb_neq; exact Gnz).
       rewrite B1. unfold memN at 1. simpl existsb. rewrite N.eqb_refl. cbn [orb negb].
-      unfold compliant_hello13 in Csh. bsplit Csh. destruct (h_psk (f_sh fl)); [discriminate|].
+      rewrite (h_f_psk _ _ (compliant_hello13_inv _ _ Csh)).
       unfold establish_keys. fold g in B1. rewrite <- B1 in NH. rewrite NH. fold g. rewrite <- B1, N.eqb_refl.
       rewrite Ccr. cbn [negb]. rewrite ALPN. cbn [negb]. rewrite CC.
       eexists. split; [reflexivity|]. simpl. auto.
     + (* cookie only *)
-      bsplit W. apply N.eqb_eq in W. fold g in B1.
+      bs W B1. bs W B2. apply N.eqb_eq in W. fold g in B1.
       destruct (KEY ltac:(rewrite Sh; exact B1)) as [EK ENZ0].
       assert (ENZ : (cv_ecdhe v' =? 0) = false) by (rewrite P7; apply N.eqb_neq; exact ENZ0).
       rewrite ENZ, P3, B. cbn [orb].
@@ -131,7 +192,7 @@ Proof.
       unfold process_sh13. rewrite Ccookie, Csel. change (0 =? 0) with true. cbn [negb].
       fold g. replace (g =? 0) with false by (symmetry; apply N.eqb_neq; exact Gnz).
       rewrite P3, Sh, B1. cbn [negb].
-      unfold compliant_hello13 in Csh. bsplit Csh. destruct (h_psk (f_sh fl)); [discriminate|].
+      rewrite (h_f_psk _ _ (compliant_hello13_inv _ _ Csh)).
       rewrite P7, P8, EK, Ccr. cbn [negb]. rewrite ALPN. cbn [negb]. rewrite CC.
       eexists. split; [reflexivity|]. simpl. auto.
   - (* no HelloRetryRequest *)
@@ -143,7 +204,7 @@ Proof.
     unfold process_sh13. rewrite Ccookie, Csel. change (0 =? 0) with true. cbn [negb].
     fold g. replace (g =? 0) with false by (symmetry; apply N.eqb_neq; exact Gnz).
     rewrite P3, Sh, Chrr. cbn [negb].
-    unfold compliant_hello13 in Csh. bsplit Csh. destruct (h_psk (f_sh fl)); [discriminate|].
+    rewrite (h_f_psk _ _ (compliant_hello13_inv _ _ Csh)).
     rewrite P7, P8, EK, Ccr. cbn [negb]. rewrite ALPN. cbn [negb]. rewrite CC.
     eexists. split; [reflexivity|]. simpl. auto.
 Qed.
